@@ -140,6 +140,9 @@ func GenOp(t *rapid.T, r *Runner, alphabet []proto.Message, readsToo bool) Op {
 		if r.Cfg.Writable != nil {
 			if rapid.IntRange(0, 5).Draw(t, "moreWritable") == 0 {
 				op.MoreWritable, _ = lib.DrawMask(t, "mw", md, op.Val)
+				if rapid.IntRange(0, 2).Draw(t, "mw2") == 1 {
+					op.MoreWritable2, _ = lib.DrawMask(t, "mw2mask", md, op.Val)
+				}
 			}
 			op.AllWritable = rapid.IntRange(0, 7).Draw(t, "allWritable") == 0
 		}
